@@ -165,7 +165,10 @@ def build_traces(path, tier, seed):
         else:
             k = int(rng.integers(2, 6))
             target, n = dt * k * float(rng.uniform(1.0, 1.3)), k * int(rng.integers(4, 40)) + int(rng.integers(0, k))
-        even = bool(rng.integers(3) == 0) and mode != 4
+        # (large ratios with even=True only where the decimated count k*m / k = m is already even: nothing forces trimming)
+        even = bool(rng.integers(3) == 0) and (mode != 4 or (n // k) % 2 == 0)
+        if mode == 4 and (n // k) % 2 == 0 and rng.integers(2):
+            even = True
         # band limit: below the Nyquist frequency of the coarser of (input, output) grids
         ratio = max(1.0, target / dt)
         kmax = max(0, int((n / ratio) / 2) - 2)
